@@ -320,7 +320,7 @@ func (w *pathWalker) next(from, to *ssa.BasicBlock, p *Path, on map[*ssa.BasicBl
 	if on[to] > 0 {
 		// a back edge. When helpers are read in place, a loop whose continuation test folds to a constant
 		// under the values of this path (a range over a literal argument list) is unrolled, at most 8 times.
-		if w.inline != nil && !w.inline.None && on[to] < 8 && w.headerFolds(from, to, p) {
+		if (w.inline == nil || !w.inline.Havoc) && on[to] < 8 && w.headerFolds(from, to, p) {
 			// the next iteration may pass through the loop's blocks again: they are no longer "on the path"
 			on2 := make(map[*ssa.BasicBlock]int, len(on))
 			for b, n := range on {
